@@ -289,7 +289,7 @@ pub(crate) fn name_of_ty(ty: &Rc<Type>) -> String {
             s
         }
         TypeKind::NamedWithParams {
-            package: _,
+            package,
             name: ident,
             params,
         } => {
@@ -300,6 +300,11 @@ pub(crate) fn name_of_ty(ty: &Rc<Type>) -> String {
                 s = "Vec".into();
             } else if s == "result" {
                 s = "Result".into();
+            }
+            // `p.Item` names `Item` of the module imported as `p`, which the generated code
+            // imports under the same name. Two modules may declare types of the same name
+            if let Some(package) = package {
+                s = format!("{}::{s}", package.v);
             }
             s.push('<');
             for param in params {
